@@ -57,7 +57,7 @@ def generate(seed, tier, cfg):
     asc = gen.gen_score(st.workload, profile=("kernmei" if fmt == "kern" else ("mei2" if cfg == "mei-in" else "mei")) if rich else "simple", size=gen.pick_size(tier, st.knobs))
     if cfg == "mei-in" and k.random() < 0.06:
         asc = tiny_compound(k)
-    if cfg == "kern-in" and k.random() < 0.05:
+    if cfg in ("kern-in", "mei-in") and k.random() < 0.05:
         asc = tiny_breve(k)
     mid = False
     if cfg.endswith("-rt") and rich and k.random() < 0.5:
